@@ -162,6 +162,86 @@ V("f-inf-terminated-row-position", "fire", ["C13"], INF, "                    mp
 V("f-inf-refuse-dropped", "fire", ["C06"], INF, "        assert cons != False, \"belief base inconsistent\"\n", "        pass\n")
 V("f-inf-timed-out-preprocessing-answers", "fire", ["C14"], INF, "                i: (i, False, False, 0.0) for i, q in queries.items()\n", "                i: (i, True, False, 0.0) for i, q in queries.items()\n")
 
+# ---------------------------------------------------------------------------------- Tseitin step and enumeration (C15)
+TS = "inference/tseitin_transformation.py"
+OPT = "inference/optimizer.py"
+T_PROPS = ["C15"]
+V("s-ts-sign-form", "silent", T_PROPS, TS, "        return sign * expr_id\n", "        return expr_id if sign == 1 else -expr_id\n")
+V("s-ts-literals-form", "silent", T_PROPS, TS, "            literals = expr.children() if z3.is_or(expr) else [expr]\n",
+  "            if z3.is_or(expr):\n                literals = expr.children()\n            else:\n                literals = [expr]\n")
+V("s-ts-constant-order", "silent", T_PROPS, TS, "        if z3.is_true(atom):\n            return not negated\n        if z3.is_false(atom):\n            return negated\n",
+  "        if z3.is_false(atom):\n            return negated\n        if z3.is_true(atom):\n            return not negated\n")
+V("f-ts-roles-v", "fire", T_PROPS + ["C05"], TS, "                g1 = t(z3.And(antecedence, consequence))\n", "                g1 = t(z3.And(antecedence, z3.Not(consequence)))\n")
+V("f-ts-roles-nf", "fire", T_PROPS + ["C03", "C04", "C05"], TS, "                g3 = t(z3.Or(z3.Not(antecedence), consequence))\n", "                g3 = t(z3.Or(antecedence, consequence))\n")
+V("f-ts-query-order", "fire", T_PROPS + ["C03", "C04", "C05"], TS, "        return [AB, AnotB]\n", "        return [AnotB, AB]\n")
+V("f-ts-sign-dropped", "fire", T_PROPS, TS, "            sign = -1\n            expr = expr.children()[0]\n", "            expr = expr.children()[0]\n")
+V("f-ts-constant-true-polarity", "fire", T_PROPS, TS, "        if z3.is_true(atom):\n            return not negated\n", "        if z3.is_true(atom):\n            return negated\n")
+V("f-ts-satisfied-clause-kept", "fire", T_PROPS, TS, "            if satisfied:\n                continue\n", "            if satisfied:\n                pass\n")
+V("f-ts-slot-mixup", "fire", T_PROPS + ["C03", "C04"], TS, "                f_dict[index] = self.goal2intcnf(g2[0])\n", "                f_dict[index] = self.goal2intcnf(g3[0]) if nf else self.goal2intcnf(g2[0])\n")
+V("f-ts-fresh-pool", "fire", T_PROPS, TS, "        if \"pool\" not in epistemic_state:\n            epistemic_state[\"pool\"] = IDPool()\n", "        epistemic_state[\"pool\"] = IDPool()\n")
+
+M_PROPS = ["C15", "C03"]
+V("s-mcs-superset-any", "silent", M_PROPS, OPT,
+  "        is_superset = False\n        for b in filtered:\n            if b.issubset(a):\n                is_superset = True\n                break\n        if not is_superset:\n            filtered.append(a)\n",
+  "        if not any(b.issubset(a) for b in filtered):\n            filtered.append(a)\n", note="flag loop -> any()")
+V("s-mcs-superset-operator", "silent", M_PROPS, OPT, "            if b.issubset(a):\n", "            if b <= a:\n")
+V("s-mcs-negated-hid", "silent", M_PROPS, OPT, "                new_clause.append(hid * (-1))\n", "                new_clause.append(-hid)\n")
+V("s-mcs-copy-form", "silent", M_PROPS + ["C13"], OPT, "                new_clause = clause[:]\n", "                new_clause = list(clause)\n")
+V("s-mcs-violated-form", "silent", M_PROPS, OPT, "                    if not any(x in clause for x in model):\n", "                    if all(x not in clause for x in model):\n")
+V("f-mcs-superset-direction", "fire", M_PROPS, OPT, "            if b.issubset(a):\n", "            if a.issubset(b):\n")
+V("f-mcs-unsorted", "fire", M_PROPS, OPT, "    lst_of_sets = sorted(lst_of_sets, key=len)\n", "    lst_of_sets = list(lst_of_sets)\n")
+V("f-mcs-no-copy", "fire", ["C15", "C13"], OPT, "                new_clause = clause[:]\n", "                new_clause = clause\n")
+V("f-mcs-block-sign", "fire", M_PROPS, OPT, "                new_clause.append(hid * (-1))\n", "                new_clause.append(hid)\n")
+V("f-mcs-helper-clause-dropped", "fire", M_PROPS, OPT, "        return_constraints.append(helper_variables_clause)\n", "        pass\n")
+V("f-mcs-ignore-dropped", "fire", M_PROPS, OPT, "                if index in ignore:\n                    continue\n", "                if False:\n                    continue\n")
+V("f-mcs-violated-satisfied", "fire", M_PROPS, OPT, "                    if not any(x in clause for x in model):\n", "                    if any(x in clause for x in model):\n")
+V("f-mcs-empty-set-continue", "fire", M_PROPS, OPT, "                if not violated:\n                    xMins.append(violated)\n                    break\n", "                if not violated:\n                    break\n")
+V("f-mcs-no-blocking", "fire", M_PROPS, OPT, "                [rc2.add_clause(clause) for clause in clauses_to_add]\n", "                pass\n")
+V("f-mcs-expiry-swallowed", "fire", ["C14", "C15"], OPT, "                if deadline and deadline.expired():\n                    raise TimeoutError\n", "                if deadline and deadline.expired():\n                    break\n")
+
+# ---------------------------------------------------------------------------------- ranking functions (preocf.py)
+PO = "inference/preocf.py"
+R_PROPS = ["C18"]
+V("s-rank-min-builtin", "silent", R_PROPS + ["C16"], PO, "                if min_rank is None or rank < min_rank:\n                    min_rank = rank\n",
+  "                if min_rank is None:\n                    min_rank = rank\n                elif rank < min_rank:\n                    min_rank = rank\n", note="condition split")
+V("s-rank-loop-form", "silent", R_PROPS + ["C16"], PO, "            world_symbols = self.symbolize_bitvec(world)\n            [solver.add_assertion(s) for s in world_symbols]\n\n            # Add the formula to check",
+  "            for s in self.symbolize_bitvec(world):\n                solver.add_assertion(s)\n\n            # Add the formula to check")
+V("s-accept-structure", "silent", R_PROPS + ["C16"], PO, "        if v_rank is None:\n            return False\n\n        if n_rank is None:\n            return True\n\n        return v_rank < n_rank\n",
+  "        if v_rank is None:\n            return False\n        return n_rank is None or v_rank < n_rank\n")
+V("s-accept-flip", "silent", R_PROPS + ["C16"], PO, "        return v_rank < n_rank\n", "        return n_rank > v_rank\n")
+V("s-marg-min-explicit", "silent", R_PROPS, PO, "                    ranks[new_world] = min(curr_rank, world_rank)\n", "                    ranks[new_world] = world_rank if world_rank < curr_rank else curr_rank\n")
+V("f-rank-max", "fire", R_PROPS + ["C16"], PO, "                if min_rank is None or rank < min_rank:\n", "                if min_rank is None or rank > min_rank:\n")
+V("f-rank-no-pop", "fire", R_PROPS + ["C16"], PO, "            # Pop the scope to remove world-specific constraints\n            solver.pop()\n", "            # Pop the scope to remove world-specific constraints\n")
+V("f-rank-formula-dropped", "fire", R_PROPS + ["C16"], PO, "            # Add the formula to check\n            solver.add_assertion(formula)\n", "            # Add the formula to check\n")
+V("f-rank-cached-ranks", "fire", R_PROPS + ["C16"], PO, "                rank = self.rank_world(world)\n                if min_rank is None or rank < min_rank:", "                rank = self.ranks[world]\n                if min_rank is None or rank < min_rank:")
+V("f-accept-nonstrict", "fire", R_PROPS + ["C16"], PO, "        return v_rank < n_rank\n", "        return v_rank <= n_rank\n")
+V("f-accept-sides", "fire", R_PROPS + ["C16"], PO, "        v = conditional.make_A_then_B()\n        n = conditional.make_A_then_not_B()\n", "        v = conditional.make_A_then_not_B()\n        n = conditional.make_A_then_B()\n")
+V("f-accept-undefined-v", "fire", R_PROPS + ["C16"], PO, "        if v_rank is None:\n            return False\n", "        if v_rank is None:\n            return True\n")
+V("f-marg-keep-wrong-bits", "fire", R_PROPS, PO, "                    if self.signature[i] not in marginalization\n", "                    if self.signature[i] in marginalization\n")
+V("f-marg-max", "fire", R_PROPS, PO, "                    ranks[new_world] = min(curr_rank, world_rank)\n", "                    ranks[new_world] = max(curr_rank, world_rank)\n")
+V("f-marg-signature", "fire", R_PROPS, PO, "        new_sig = [s for s in self.signature if s not in marginalization]\n", "        new_sig = [s for s in self.signature if s in marginalization]\n")
+V("f-world-literal-polarity", "fire", ["C16", "C17", "C18", "C19"], PO, "            Symbol(sig[i], BOOL) if int(bitvec[i]) else Not(Symbol(sig[i], BOOL))\n", "            Not(Symbol(sig[i], BOOL)) if int(bitvec[i]) else Symbol(sig[i], BOOL)\n")
+
+# ---------------------------------------------------------------------------------- System W (z3 back-end)
+WZ = "inference/system_w_z3.py"
+WZ_PROPS = ["C03", "C11"]
+V("s-wz-not-result", "silent", WZ_PROPS, WZ, "            if result == False:\n                return False\n        return True\n", "            if not result:\n                return False\n        return True\n")
+V("s-wz-loop-form", "silent", WZ_PROPS, WZ, "            [opt.add(c.make_A_then_not_B()) for c in xi_i]\n", "            for c in xi_i:\n                opt.add(c.make_A_then_not_B())\n")
+V("s-wz-check-order", "silent", WZ_PROPS + ["C14"], WZ, "            if check == unsat:\n                return xi_i_set\n            if check != sat:\n                # the optimizer gave up (its timeout carries the remaining budget): no model\n                # is available, report the expiry instead of reading one\n                raise TimeoutError\n",
+  "            if check != sat and check != unsat:\n                raise TimeoutError\n            if check == unsat:\n                return xi_i_set\n")
+V("s-wz-empty-set-form", "silent", WZ_PROPS, WZ, "            if xi_i == frozenset[Conditional_z3]():\n", "            if not xi_i:\n")
+V("f-wz-soft-polarity", "fire", WZ_PROPS, WZ, "            opt.add_soft(conditional.make_A_then_not_B() == False)\n", "            opt.add_soft(conditional.make_A_then_not_B())\n")
+V("f-wz-block-conj", "fire", WZ_PROPS, WZ, "            opt.add(Or([c.make_A_then_not_B() == False for c in xi_i]))\n", "            opt.add(And([c.make_A_then_not_B() == False for c in xi_i]))\n",
+  more=[(WZ, "from z3 import Optimize, Or,", "from z3 import And, Optimize, Or,", 0)])
+V("f-wz-missing-pop", "fire", WZ_PROPS, WZ, "        xi_i_set = self.get_all_xi_i(opt, part)\n        opt.pop()\n", "        xi_i_set = self.get_all_xi_i(opt, part)\n")
+V("f-wz-unknown-as-done", "fire", ["C14", "C11"], WZ, "                # is available, report the expiry instead of reading one\n                raise TimeoutError\n", "                # is available, report the expiry instead of reading one\n                return xi_i_set\n")
+V("f-wz-violated-read", "fire", WZ_PROPS, WZ, "[c for c in part if is_true(m.eval(c.make_A_then_not_B()))]", "[c for c in part if is_true(m.eval(c.make_A_then_B()))]")
+V("f-wz-tie-rest-dropped", "fire", WZ_PROPS, WZ, "            [opt.add(c.make_A_then_not_B() == False) for c in part if c not in xi_i]\n", "")
+V("f-wz-timeout-not-set", "silent", ["C14"], WZ, "        if deadline and not deadline.expired():\n            opt.set(timeout=deadline.remaining_ms())\n", "        if deadline:\n            opt.set(timeout=max(deadline.remaining_ms(), 1))\n",
+  note="budget passing reformulated (still passes the remaining time)")
+V("f-wz-translate-swapped", "fire", WZ_PROPS, "inference/conditional_z3.py", "        return cls(consequence, antecedence, existing.textRepresentation, existing.weak)\n",
+  "        return cls(antecedence, consequence, existing.textRepresentation, existing.weak)\n")
+
 
 def main():
     hv = os.path.join(HERE, "harvested.json")
